@@ -19,6 +19,7 @@ from numpy.polynomial.legendre import leggauss
 
 from vp import gen, probe, propmodel, refmodels as rm
 from vp import defaults
+from vp import reuse
 
 RULE = ('seeded generator: tilt angles giving 0.01 px .. more than the output size, circular/irregular/segmented apertures '
         '4..20 per side with per-segment tilts, square and non-square du and dx, oversample 1..4, 1..4 tilt elements in '
@@ -142,6 +143,7 @@ def _lay(ctx, rng, a):
 
 def workload(ctx, lentil):
     defaults.run(ctx, lentil, 'C04', 'rep=model')
+    reuse.run(ctx, lentil, 'C04', 'rep=model')
     rng = ctx.rng
     n = ctx.count(70, 500)
     hi = 18 if ctx.tier == 'quick' else 32
